@@ -46,7 +46,7 @@ def xyz_file_to_atoms(filename: str) -> Atoms:
             atom_label, x, y, z = line.split()[:4]
             atoms.append(Atom(atomic_symbol=atom_label, x=x, y=y, z=z))
 
-        except (IndexError, TypeError, ValueError):
+        except (IndexError, TypeError, ValueError, AssertionError):
             raise XYZfileWrongFormat(
                 f"Coordinate line {i} ({line}) not the correct format"
             )
@@ -115,15 +115,36 @@ def xyz_file_to_molecules(filename: str) -> Sequence["Molecule"]:
     _check_xyz_file_exists(filename)
 
     lines = open(filename, "r").readlines()
-    n_atoms = int(lines[0].split()[0])
+
+    while len(lines) > 0 and len(lines[-1].split()) == 0:
+        lines.pop()  # Trailing blank lines are not part of a frame
+
+    if len(lines) == 0:
+        raise XYZfileWrongFormat(f"XYZ file ({filename}) was empty")
+
+    n_atoms = _n_atoms_from_first_xyz_line(lines[0])
     molecules = []
 
     for i in range(0, len(lines), n_atoms + 2):
         atoms = []
+        frame_lines = lines[i + 2 : i + n_atoms + 2]
+
+        if len(frame_lines) != n_atoms or n_atoms == 0:
+            raise XYZfileWrongFormat(
+                f"Number of atoms declared ({n_atoms}) not equal to the "
+                f"number of atoms found ({len(frame_lines)})"
+            )
+
         title_line = StringDict(lines[i + 1])
-        for j, line in enumerate(lines[i + 2 : i + n_atoms + 2]):
-            symbol, x, y, z = line.split()[:4]
-            atoms.append(Atom(atomic_symbol=symbol, x=x, y=y, z=z))
+        for j, line in enumerate(frame_lines):
+            try:
+                symbol, x, y, z = line.split()[:4]
+                atoms.append(Atom(atomic_symbol=symbol, x=x, y=y, z=z))
+
+            except (IndexError, TypeError, ValueError, AssertionError):
+                raise XYZfileWrongFormat(
+                    f"Coordinate line ({line}) not the correct format"
+                )
 
         molecule = Molecule(
             atoms=atoms, solvent_name=title_line.get("solvent_name", None)
